@@ -7,6 +7,7 @@ import (
 	"net/http"
 
 	"github.com/buildbuildio/pebbles/common"
+	"github.com/buildbuildio/pebbles/gqlerrors"
 	"github.com/buildbuildio/pebbles/requests"
 	"github.com/samber/lo"
 )
@@ -162,11 +163,17 @@ func (q *MultiOpQueryer) queryBatch(inputs []*requests.Request) ([]map[string]in
 		return nil, fmt.Errorf("expected %d responses in batch, got %d", len(inputsToFetch), len(resps))
 	}
 
+	// every response of the batch may carry its own errors: report them all
+	var errs gqlerrors.ErrorList
+	for _, resp := range resps {
+		errs = append(errs, resp.Errors...)
+	}
+	if len(errs) != 0 {
+		return nil, errs
+	}
+
 	// format the result as needed
 	for i, resp := range resps {
-		if len(resp.Errors) != 0 {
-			return nil, resp.Errors
-		}
 		// a well-formed answer carries data or says why it does not
 		if resp.Data == nil {
 			return nil, errors.New("response has neither data nor errors")
